@@ -199,7 +199,7 @@ LENGTHS = {16: [3, 4, 5], 32: [2, 3, 4], 64: [2, 3]}
 
 def main():
     ck = Check('C12')
-    ck.build_theories(['theories/Props/C12.vo', 'theories/Corr/FloodK.vo'])
+    ck.build_theories(['theories/Props/C12.vo', 'theories/Props/C12b.vo', 'theories/Corr/FloodK.vo'])
     # the flood's neighbours and start cell go through the C11 codec model: re-tie its tables
     rep = gen_geohash.main(REPO, os.path.join(ck.rundir, 'GeohashCfgGen.v'))
     ck.gen('GeohashCfgGen.v', rep, 'GeohashCfgGenEq.v')
@@ -208,6 +208,7 @@ def main():
     rep = gen_flood.main(REPO, os.path.join(ck.rundir, 'FloodGen.v'))
     ck.gen('FloodGen.v', rep, 'FloodGenEq.v')
     ck.props('Props/C12.v')
+    ck.props('Props/C12b.v')     # connectivity hypothesis discharged for rectangles / L-convex cell sets and the concrete geohash neighbourhood
 
     rng = ck.rng
     thorough = ck.tier == 'thorough'
